@@ -48,7 +48,7 @@ EXTENDS Naturals, Sequences, FiniteSets, TLC, Json
 CONSTANTS Workers,      \* every worker id that may ever exist (strings: "0", "1", ...)
           InitWorkers,  \* launched before the hub's loop starts (from the empty state)
           MuteWorkers,  \* workers that never read nor answer (how a time-out is produced on demand)
-          Universe,     \* name of the command universe offered to the client: "core" | "tcp" | "all"
+          Universe,     \* name of the command universe offered to the client: "core" | "tcp" | "load" | "all"
           MaxOps,       \* bound on the number of client operations
           MaxFaults,    \* bound on Worker_Die + Hub_StartWorker steps
           SlowWorkers,  \* TRUE: a task may time out although every target could still answer
@@ -114,8 +114,17 @@ CmdsTcp ==
     [verb |-> "UpdateHttpListener", a |-> "A1", p |-> [ft |-> 77]],
     [verb |-> "UpdateHttpListener", a |-> "A1", p |-> [ft |-> 77, sid |-> "bad header"]],
     [verb |-> "AddHttpListener", v |-> LH] }
+\* few commands, for longer scripts around SaveState / LoadState (a saved object removed again, then loaded back)
+CmdsLoad ==
+  { [verb |-> "AddHttpListener", v |-> LH],
+    LVerb("RemoveListener", "http", "A1"),
+    [verb |-> "AddCluster", v |-> CluV("none")],
+    [verb |-> "AddBackend", c |-> "c1", b |-> "b1", x |-> "x1", w |-> 0],
+    [verb |-> "RemoveBackend", c |-> "c1", b |-> "b1", x |-> "x1"],
+    [verb |-> "AddHttpFrontend", f |-> FrontOn("A1")] }
 Cmds == CASE Universe = "core" -> CmdsCore
           [] Universe = "tcp" -> CmdsTcp
+          [] Universe = "load" -> CmdsLoad
           [] OTHER -> CmdsCore \cup CmdsTcp
 
 OpCmd(c) == [kind |-> "cmd", c |-> c]
